@@ -483,6 +483,28 @@ func c17Worker(w *W) {
 				return
 			}
 		}
+		if len(text) < 2000 && (len(m)+len(text))%5 == 0 {
+			// the returned map belongs to the caller: an application that edits it (takes 'type' out, adds defaults) must not
+			// change what a later Parse of the same text returns
+			delete(m, "type")
+			m["added.by.caller"] = "x"
+			for k := range m {
+				m[k] = "overwritten"
+				break
+			}
+			m2, err2, pv2 := call(text)
+			same := pv2 == nil && err2 == nil && len(m2) == len(ref)
+			for k, v := range ref {
+				if same && m2[k] != v {
+					same = false
+				}
+			}
+			if !same {
+				w.Violate("C17:map-mismatch:after-caller-edit", fmt.Sprintf("expression %q: after the caller edited the map returned by the first Parse, a second Parse returned %v (err=%v), expected %v", trunc(text, 300), m2, err2, ref), cs)
+				return
+			}
+			w.Count("reparsed_after_the_caller_edited_the_first_result", 1)
+		}
 		w.Distinct("wf:" + fk)
 	}
 
@@ -688,10 +710,10 @@ func c17Worker(w *W) {
 		for i := 0; i < n; i++ {
 			if i%4 == 1 {
 				// a failed parse right before a well-formed one (state carried over from a failed call)
-				if h, cls := c17hostile(r, true); len(h) < 1500 {
+				if h, cls := c17hostile(r, true); len(h) < 1500 && i%8 != 1 {
 					totality(h, cls)
 				} else {
-					totality([]string{"A{b=B{c}}", "A{a=1,b=B{x=2,", "L{x=M{y=N{z}}}", "A{a.b[0]=C{d}"}[i%4], "nested-incomplete")
+					totality([]string{"A{b=B{c}}", "A{a=1,b=B{x=2,", "L{x=M{y=N{z}}}", "A{a.b[0]=C{d}", "\"Console\"{}", "1{}", "}", "=", "1.5{a=1}", "A{b=\"T\"{}}"}[(i/4)%10], "nested-incomplete")
 				}
 			}
 			ast := c17gen(r, 0)
